@@ -106,8 +106,13 @@ impl Prop for FrontEnd {
     }
     fn eval(&self, case: &TextCase) -> Outcome {
         let h = hash64(&case.text);
-        let parse_errors = dora_parser::Parser::from_shared_string(std::sync::Arc::new(case.text.clone()));
-        let perr = guarded(|| parse_errors.parse().1.len()).unwrap_or(usize::MAX);
+        // lexing happens when the parser is constructed: a panic there is a front-end crash like any other
+        let text = case.text.clone();
+        let perr = match guarded(move || dora_parser::Parser::from_shared_string(std::sync::Arc::new(text)).parse().1.len()) {
+            Ok(n) => n,
+            Err(p) if p.location.contains("dora-parser/src/lexer") => return Outcome::fail(h, p.key(), format!("lexer panicked: {} at {}", p.message, p.location)),
+            Err(_) => usize::MAX,
+        };
         match run_front_end(&case.text, self.emit) {
             Ok(rep) => {
                 let fam = case.family.split(':').next().unwrap_or("").split('/').next().unwrap_or("").to_string();
